@@ -5,6 +5,7 @@ from __future__ import annotations
 import math
 
 from tools.lib import common
+from tools.corr import C12_history as hist
 from tools.props import C11 as c11
 from tools.translate import c11_ext as X
 from tools.translate.c11_ext import C, N, R, Fun, RawBlock, Real, TDef
@@ -166,6 +167,7 @@ def build_definitions():  # noqa: PLR0915
                              "phsp_factor=rho)(resonance, variable_pool)[0]"))
         facts[f"{name}_defaults"] = _defaults_fact(defaults)
     facts.update(_discrete_facts(bld, dyn, ps, sp))
+    facts.update(hist.none_facts())
 
     # ---- concrete instances (real FormFactor, each real phase-space class) for the Float-twin validation
     sy = lambda *names: [("sym", n) for n in names]  # noqa: E731
@@ -255,6 +257,10 @@ EXPECTED_FACTS = {
     "create_analytic_breit_wigner_is_function": True,
     "create_analytic_breit_wigner_defaults": _D_MGD,
     "builder_default_phsp_factor": True,
+    # what a call WITHOUT angular momentum does (read off the clean tree: __simple_breit_wigner needs no L,
+    # the form-factor / width code raises ValueError("Angular momentum is not defined ..."))
+    "L_None_plain_builder_returns_plain_breit_wigner": True,
+    "L_None_with_form_factor_or_width_raises": ["ValueError:angular momentum"] * 3 + ["ValueError"],
 }
 
 
@@ -433,6 +439,8 @@ def search(chk: common.Check, rng, n: int, tier: str):  # noqa: C901, PLR0912, P
         if len(bad) > 20:
             break
     _ = np
+    # ---- histories: purity of __call__ on one builder object (fresh and module-level objects)
+    bad += hist.purity_oracle(chk, rng, 40 if tier == "quick" else 400)
     return bad
 
 
@@ -453,6 +461,11 @@ class _Prop(X.TypedT1Property):
         return super().run(tier, seed)
 
 
+def _history_tie(chk, ctx):
+    """T2: call histories on real builder objects vs the Lean state machine (Model/C12Builder.lean)."""
+    hist.run_correspondence(chk, ctx["rng"], 60 if ctx["tier"] == "quick" else 600)
+
+
 PROP = _Prop(
     prop_id="C12",
     sources=SOURCES,
@@ -465,7 +478,10 @@ PROP = _Prop(
     n_search={"quick": 120, "thorough": 1500},
     extra_imports=("Ampverif.Lemmas.C12Table",),
     expected_facts=EXPECTED_FACTS,
-    trusted=("the Blatt-Weisskopf table (c_L, denominator coefficients) is extracted with SymPy's Poly and re-proved "
+    post=_history_tie,
+    trusted=("history tie: the canonicaliser of tools/corr/C12_history.py (structural equality with the public "
+             "function API decides which lineshape a builder result is)",
+             "the Blatt-Weisskopf table (c_L, denominator coefficients) is extracted with SymPy's Poly and re-proved "
              "equal to the syntactically translated polynomial path by the kernel (bw_L_eq_table)",),
 )
 
@@ -486,7 +502,14 @@ MANIFEST = {
         "Γ_R, m_a, m_b, L, d_R, ρ), ff-only = F × simple BW, edw-only = BW with the energy-dependent width, for every ff, rho, L and all "
         "real arguments; at the pole the full lineshape is i·F(m_R²). Discrete facts re-evaluated on the real objects each run: parameter "
         "defaults = resonance mass/width (radius 1) for all flags, identifier fallback, the three module-level convenience builders = the "
-        "public functions. Symbolic L (the _SymbolicSum path) is only compared numerically with the polynomial path by the oracle."
+        "public functions. Symbolic L (the _SymbolicSum path) is only compared numerically with the polynomial path by the oracle. "
+        "Histories: the builder is modelled as a state machine (Model/C12Builder.lean: builder = immutable configuration); proved for "
+        "every configuration and every call history on ONE builder object: each output equals what a fresh builder of that "
+        "configuration returns for that call and the attributes are unchanged (builder_history_pure, builder_call_k), a call without "
+        "angular momentum returns the plain Breit-Wigner for the plain builder and raises otherwise (builder_call_none; pinned on the "
+        "tree as facts), plus a kernel-checked witness history for the defect class 'a call stores a fallback on the instance'. The "
+        "model is tied to the real class by a history correspondence on every run (60 / 600 seeded histories mixing L = None, 0, 1, 2, "
+        "five resonances, two pools, fresh builders of all flag x phase-space combinations and the three module-level builder objects)."
     ),
     "level_note": (
         "Trusted: Lean kernel + Mathlib (axioms propext, Classical.choice, Quot.sound; thorough tier re-checks with leanchecker); the "
@@ -494,7 +517,9 @@ MANIFEST = {
         "instance vs the real lambdified code under numpy complex128 and mpmath, L ≤ 4 quick / ≤ 10 thorough); the extraction of the "
         "table with SymPy's Poly is re-proved against the syntactic translation by the kernel. Modelled: a FormFactor / EnergyDependentWidth "
         "instance is read as a call of the corresponding generated definition with the instance's arguments and phsp_factor attribute "
-        "(checked: the attribute must be the object passed in). The non-vanishing hypotheses ρ(m0²) ≠ 0, F(m0²) ≠ 0 are hypotheses of the "
+        "(checked: the attribute must be the object passed in). In the history tie a builder result is canonicalised to the NAME of the "
+        "public lineshape it is structurally equal to (for that call's resonance symbols, pool, L, phase-space class); the Lean state "
+        "machine is hand-written (about 25 lines of logic). The non-vanishing hypotheses ρ(m0²) ≠ 0, F(m0²) ≠ 0 are hypotheses of the "
         "width theorems (they fail e.g. exactly at threshold). Floating-point evaluation is executed, not modelled."
     ),
 }
